@@ -1795,6 +1795,104 @@ pub fn generate(rng: &mut Rng, tier: Tier, emit: &mut dyn FnMut(String)) {
         }
     }
 
+    // SUPPORTED option maps for `ProtocolFeatures::parse_from_supported`: every extension key present / absent, its
+    // field first / last / duplicated / behind a field sharing its prefix / bare / followed by something else than `=`
+    {
+        let exts: [(&str, &str); 2] = [("SCYLLA_RATE_LIMIT_ERROR", "ERROR_CODE"), ("SCYLLA_LWT_ADD_METADATA_MARK", "LWT_OPTIMIZATION_META_BIT_MASK")];
+        let nums = [
+            "0", "1", "61440", "-1", "+5", "-0", "+", "-", "", "007", "2147483647", "2147483648", "-2147483648", "-2147483649", "4294967295", "4294967296",
+            "99999999999999999999999", "12a", "a", " 1", "1 ", "0x10", "1.0", "\u{661}", "1\u{20ac}", "+-1", "--1", "=1", "1=2",
+        ];
+        let body = |entries: &[(String, Vec<String>)]| -> String {
+            let mut b = B::default();
+            b.short(entries.len() as u16);
+            for (k, vs) in entries {
+                b.string(k.as_bytes());
+                b.short(vs.len() as u16);
+                for v in vs {
+                    b.string(v.as_bytes());
+                }
+            }
+            format!("s {}", hex(&b.out))
+        };
+        for (ext, key) in exts {
+            let mut lists: Vec<Vec<String>> = vec![vec![], vec!["".into()], vec![key.into()], vec![format!("{}=", key)]];
+            for n in nums {
+                lists.push(vec![format!("{}={}", key, n)]);
+            }
+            for tail in ["", "2=7", "€61440", "\u{e9}", ":5", " =5", "=", "==5", "X", "=5", "\0=5", "\u{301}=5"] {
+                // the bare key / the key followed by something else, alone, before and after a proper field
+                let odd = format!("{}{}", key, tail);
+                lists.push(vec![odd.clone()]);
+                lists.push(vec![odd.clone(), format!("{}=9", key)]);
+                lists.push(vec![format!("{}=9", key), odd.clone()]);
+                lists.push(vec!["OTHER=1".into(), odd.clone(), "".into(), format!("{}=12", key)]);
+            }
+            lists.push(vec![format!("{}=1", key), format!("{}=2", key)]);
+            lists.push(vec![format!("{}=x", key), format!("{}=2", key)]);
+            lists.push(vec![format!("X{}=1", key), format!("{}=2", key)]);
+            lists.push(vec![format!("{}=3", &key[..key.len() - 1]), format!("{}=4", key)]);
+            lists.push(vec![format!("{}=3", key.to_lowercase())]);
+            lists.push(vec!["A=1".into(), "B".into(), format!("{}=77", key)]);
+            lists.push(vec![format!("{}=77", key), "A=1".into(), "B".into()]);
+            for l in &lists {
+                emit(body(&[(ext.to_owned(), l.clone())]));
+                // among other options, with the other extensions present, and as a repeated key (the last one counts)
+                emit(body(&[
+                    ("CQL_VERSION".to_owned(), vec!["3.0.0".into()]),
+                    ("TABLETS_ROUTING_V1".to_owned(), vec!["".into()]),
+                    (ext.to_owned(), l.clone()),
+                    ("SCYLLA_USE_METADATA_ID".to_owned(), vec![]),
+                    ("COMPRESSION".to_owned(), vec!["lz4".into(), "snappy".into()]),
+                ]));
+                emit(body(&[(ext.to_owned(), vec![format!("{}=1", key)]), (ext.to_owned(), l.clone())]));
+                emit(body(&[(ext.to_owned(), l.clone()), (ext.to_owned(), vec![format!("{}=1", key)])]));
+            }
+        }
+        // the two at once, the presence-only extensions, keys sharing a prefix, unknown keys, an empty map
+        emit(body(&[]));
+        emit("s -".to_owned());
+        for k in ["TABLETS_ROUTING_V1", "SCYLLA_USE_METADATA_ID", "TABLETS_ROUTING_V", "TABLETS_ROUTING_V12", "tablets_routing_v1", "SCYLLA_RATE_LIMIT_ERROR2", "SCYLLA_RATE_LIMIT_ERRO", "", "\u{20ac}"] {
+            emit(body(&[(k.to_owned(), vec![])]));
+            emit(body(&[(k.to_owned(), vec!["ERROR_CODE=5".into(), "LWT_OPTIMIZATION_META_BIT_MASK=6".into()])]));
+        }
+        emit(body(&[
+            ("SCYLLA_RATE_LIMIT_ERROR".to_owned(), vec!["ERROR_CODE=61440".into()]),
+            ("SCYLLA_LWT_ADD_METADATA_MARK".to_owned(), vec!["LWT_OPTIMIZATION_META_BIT_MASK=2147483648".into()]),
+            ("TABLETS_ROUTING_V1".to_owned(), vec!["".into()]),
+            ("SCYLLA_USE_METADATA_ID".to_owned(), vec!["".into()]),
+        ]));
+        emit(body(&[
+            ("SCYLLA_RATE_LIMIT_ERROR".to_owned(), vec!["LWT_OPTIMIZATION_META_BIT_MASK=3".into()]),
+            ("SCYLLA_LWT_ADD_METADATA_MARK".to_owned(), vec!["ERROR_CODE=4".into()]),
+        ]));
+        // random structured maps, and every truncation of one
+        for i in 0..300 * scale {
+            let n = rng.below(5) as usize;
+            let mut entries = vec![];
+            for _ in 0..n {
+                let k = (*rng.pick(&["SCYLLA_RATE_LIMIT_ERROR", "SCYLLA_LWT_ADD_METADATA_MARK", "TABLETS_ROUTING_V1", "SCYLLA_USE_METADATA_ID", "CQL_VERSION", "X"])).to_owned();
+                let m = rng.below(4) as usize;
+                let vs: Vec<String> = (0..m)
+                    .map(|_| {
+                        let key = *rng.pick(&["ERROR_CODE", "LWT_OPTIMIZATION_META_BIT_MASK", "ERROR_CODE2", "ERROR_COD", "Z", ""]);
+                        let sepr = *rng.pick(&["=", "=", "=", "", ":", "\u{20ac}", "=="]);
+                        format!("{}{}{}", key, sepr, *rng.pick(&nums))
+                    })
+                    .collect();
+                entries.push((k, vs));
+            }
+            let line = body(&entries);
+            if i % 50 == 0 {
+                let hx = &line[2..];
+                for cut in (0..hx.len()).step_by(2) {
+                    emit(format!("s {}", if cut == 0 { "-" } else { &hx[..cut] }));
+                }
+            }
+            emit(line);
+        }
+    }
+
     // the type strings of the schema tables (`map_string_to_cql_type`, fetching.rs; nesting limit of fix 7c5e882)
     {
         let mut t = |s: &str| emit(format!("t {} {}", if s.is_empty() { "-".to_owned() } else { hex(s.as_bytes()) }, uni_table(s.as_bytes())));
